@@ -290,7 +290,7 @@ def _move_ownership(cp: Any, pert: dict) -> bool:
 
 def _build(tier: str):
     cfg = L.Cfg(max_dirs=4 if tier == 'quick' else 8, comments=0.45, blank=0.3, dup_comments=0.5)
-    fams = ['tokraw', 'tokraw', 'opt', 'opt', 'req', 'val', 'list', 'list', 'view']
+    fams = ['tokraw', 'tokraw', 'opt', 'opt', 'req', 'val', 'list', 'list', 'view', 'arith', 'arith', 'map', 'copyins', 'popins']   # round 8: every family that changes text
 
     def build(rnd: Any) -> dict:
         g = L.G(rnd, cfg)
